@@ -20,7 +20,7 @@ property_meta('C01', level='proof', min_obligations=40,
               assumptions=['float32/float64 accuracy clause (relative error in eps / sqrt(eps)): bounded stand-in vs mpmath, not proved'],
               explanation='closed-form and Taylor paths of the real Exp code equal the sympy-derived spec coefficients; exact normal form over sin/cos/exp atoms')
 
-REG = ('generic', 'zero', 'tiny', 'subeps', 'small', 'large')
+REG = ('generic', 'zero', 'tiny', 'subeps', 'sqrteps', 'micro', 'small', 'large')
 
 
 def rot_spec(env, x, theta):
